@@ -319,6 +319,7 @@ func (f *frame) call(res ssa.Value, c *ssa.CallCommon, st *State, cur string) (s
 			t.arrSort[name] = sortA
 		}
 		st.heap[name] = B.declConst(B.fresh(name), sortA)
+		t.noteVersion(st.heap[name], st.alloc)
 	}
 	if eff.trace {
 		oldN, oldT := st.ntrace, st.trace
@@ -794,6 +795,7 @@ func (f *frame) appendOp(res ssa.Value, c *ssa.CallCommon, st *State, cur string
 	na := B.declConst(B.fresh(name), es)
 	t.arrSort[name] = es
 	st.heap[name] = na
+	t.noteVersion(na, st.alloc)
 	rb, ro := fmt.Sprintf("(s_base %s)", r), fmt.Sprintf("(s_off %s)", r)
 	// other bases unchanged
 	cur = and(cur, fmt.Sprintf("(forall ((?b Int)) (! (=> (not (= ?b %s)) (= (select %s ?b) (select %s ?b))) :pattern ((select %s ?b))))", rb, na, old, na))
